@@ -3,7 +3,10 @@
 (* The streaming Encoder: WriteToken and WriteValue over the grammar       *)
 (* push-down automaton, with the rendered output.                          *)
 (*                                                                         *)
-(* State  stk  frames [t, n, names, name] (level 0 = top level)            *)
+(* State  fr   the innermost open frame [t, n, names, name]                *)
+(*        stk  the enclosing frames, outermost (top level) first; kept     *)
+(*             apart from fr so that a call inside a container does not    *)
+(*             copy a stack that may be 10000 long                         *)
 (*        out  every byte produced so far (delivered or still buffered)    *)
 (*                                                                         *)
 (* A call is a record:                                                     *)
@@ -16,10 +19,12 @@
 (***************************************************************************)
 EXTENDS Format
 
-EInit == [stk |-> <<[t |-> "t", n |-> 0, names |-> {}, name |-> <<>>]>>, out |-> <<>>]
+EInit == [stk |-> <<>>, fr |-> [t |-> "t", n |-> 0, names |-> {}, name |-> <<>>], out |-> <<>>]
 
-EDepth(e) == Len(e.stk) - 1
-Top(e) == e.stk[Len(e.stk)]
+EDepth(e) == Len(e.stk)
+Top(e) == e.fr
+\* frame of level i (0 = top level)
+FrameAt(e, i) == IF i = Len(e.stk) THEN e.fr ELSE e.stk[i + 1]
 
 NeedName(f)  == f.t = "o" /\ f.n % 2 = 0
 NeedValue(f) == f.t = "o" /\ f.n % 2 = 1
@@ -37,9 +42,8 @@ Terminate(e) == IF EDepth(e) = 0 THEN [e EXCEPT !.out = Append(@, 10)] ELSE e
 
 \* account for one scalar value / name at the current position
 Count(e, isName, cps) ==
-    LET d == Len(e.stk) IN
-    IF isName THEN [e EXCEPT !.stk[d].n = @ + 1, !.stk[d].names = @ \cup {cps}, !.stk[d].name = cps]
-    ELSE [e EXCEPT !.stk[d].n = @ + 1]
+    IF isName THEN [e EXCEPT !.fr.n = @ + 1, !.fr.names = @ \cup {cps}, !.fr.name = cps]
+    ELSE [e EXCEPT !.fr.n = @ + 1]
 
 Accept(e) == [ok |-> TRUE, next |-> e]
 Reject(e) == [ok |-> FALSE, next |-> e]
@@ -63,12 +67,13 @@ WriteTokenStep(F, e, c, maxd) ==
            ELSE WriteScalar(F, e, Quote(g.cps, Esc(F)), TRUE, g.cps)
       [] c.k \in {"{", "["} ->
            IF NeedName(f) \/ EDepth(e) >= maxd THEN Reject(e)
-           ELSE Accept([stk |-> Append([e.stk EXCEPT ![Len(e.stk)].n = @ + 1],
-                                       [t |-> IF c.k = "{" THEN "o" ELSE "a", n |-> 0, names |-> {}, name |-> <<>>]),
+           ELSE Accept([stk |-> Append(e.stk, [e.fr EXCEPT !.n = @ + 1]),
+                        fr |-> [t |-> IF c.k = "{" THEN "o" ELSE "a", n |-> 0, names |-> {}, name |-> <<>>],
                         out |-> e.out \o Lead(F, e, FALSE) \o <<IF c.k = "{" THEN 123 ELSE 91>>])
       [] c.k \in {"}", "]"} ->
            IF (c.k = "}" /\ f.t = "o" /\ f.n % 2 = 0) \/ (c.k = "]" /\ f.t = "a")
            THEN Accept(Terminate([stk |-> SubSeq(e.stk, 1, Len(e.stk) - 1),
+                                  fr |-> e.stk[Len(e.stk)],
                                   out |-> e.out \o Lead(F, e, TRUE) \o <<IF c.k = "}" THEN 125 ELSE 93>>]))
            ELSE Reject(e)
       [] OTHER -> Reject(e)
@@ -89,16 +94,16 @@ WriteValueStep(F, e, c, maxd) ==
 ECall(F, e, c, maxd) == IF c.op = "tok" THEN WriteTokenStep(F, e, c, maxd) ELSE WriteValueStep(F, e, c, maxd)
 
 \* observers: OutputOffset, StackDepth, StackIndex (levels 0, d-1, d), StackPointer
-EIndex(stk, i) == <<i, CASE stk[i + 1].t = "o" -> 123 [] stk[i + 1].t = "a" -> 91 [] OTHER -> 0, stk[i + 1].n>>
+EIndex(e, i) == LET f == FrameAt(e, i) IN <<i, CASE f.t = "o" -> 123 [] f.t = "a" -> 91 [] OTHER -> 0, f.n>>
 EObserve(e) ==
     LET dep == EDepth(e) IN
     [off |-> Len(e.out), depth |-> dep,
      idx |-> [j \in 1..(IF dep = 0 THEN 1 ELSE IF dep = 1 THEN 2 ELSE 3) |->
-                 EIndex(e.stk, IF j = 1 THEN 0 ELSE IF dep = 1 THEN 1 ELSE dep - 3 + j)]]
+                 EIndex(e, IF j = 1 THEN 0 ELSE IF dep = 1 THEN 1 ELSE dep - 3 + j)]]
 
 RECURSIVE EDigits(_)
 EDigits(n) == IF n < 10 THEN <<48 + n>> ELSE Append(EDigits(n \div 10), 48 + (n % 10))
 EPointer(e) ==
-    LET lv == SelectSeq([j \in 1..(Len(e.stk) - 1) |-> e.stk[j + 1]], LAMBDA f : f.n > 0) IN
+    LET lv == SelectSeq([j \in 1..EDepth(e) |-> FrameAt(e, j)], LAMBDA f : f.n > 0) IN
     [j \in 1..Len(lv) |-> IF lv[j].t = "a" THEN EDigits(lv[j].n - 1) ELSE lv[j].name]
 =============================================================================
